@@ -1,6 +1,6 @@
 (** C03 - Bin-packing results are feasible packings of exactly the input items.
     Statements only; proofs in Proofs/PackingProofs.v (fit heuristics) and Proofs/BCProofs.v (bin completion). *)
-From Prtpy Require Import Base.Prelude Model.Binner Model.Packing Spec.Partition Proofs.PackingProofs Model.BinCompletion Model.BinCompletionNamed Proofs.BCProofs Proofs.BCNamedProofs.
+From Prtpy Require Import Base.Prelude Model.Binner Model.Packing Spec.Partition Proofs.PackingProofs Model.BinCompletion Model.BinCompletionNamed Proofs.BCProofs Proofs.BCNamedProofs Oracle.Checkers Proofs.CheckersSpec.
 
 (** first-fit: every item exactly once, no sum above the bin size, recorded sums are the totals *)
 Theorem C03_ff_packing : forall (A : Type) (valueof : A -> Z) (C : Z) (items : list A) (b : bins A),
@@ -71,3 +71,14 @@ Theorem C03_bc_named_packing : forall (A : Type) (valueof : A -> Z) (C : Z) (fue
   is_packing valueof C (filter (nonzero_item valueof) items) b /\ all_nonempty b.
 Proof. exact @bc_named_packing. Qed.
 Print Assumptions C03_bc_named_packing.
+
+(** the boolean checker that judges the IMPLEMENTATION's packings (extracted; items are (name, value) pairs in which a name determines the item)
+    decides exactly the specification is_packing *)
+Theorem C03_checker_is_packing : forall (C : Z) (items : list citem) (b : bins citem),
+  names_det (contents b ++ items) -> is_packing_b C items b = true <-> is_packing cval C items b.
+Proof. exact is_packing_b_spec. Qed.
+Print Assumptions C03_checker_is_packing.
+
+Theorem C03_checker_nonempty : forall b : bins citem, nonempty_b b = true <-> all_nonempty b.
+Proof. exact nonempty_b_spec. Qed.
+Print Assumptions C03_checker_nonempty.
